@@ -1,5 +1,5 @@
 """Which contracts decide which property."""
-from . import indexing, bases, align, axes, metadata, reshape, dataset, missing, transform, join, wellformed, regroup, arith, interp, dsops, serial
+from . import indexing, bases, align, axes, metadata, reshape, dataset, missing, transform, join, wellformed, regroup, arith, interp, dsops, serial, filters
 
 GLOBAL_ASSUMPTIONS = [
     "NumPy implements the contracts in dverif/symnp.py (validated by sampling against the installed NumPy, never proved)",
@@ -98,7 +98,8 @@ PROPERTIES = {
                       (align.TakeAxis, r"."), (align.SortAxis, r"."),
                       (reshape.Transpose, r"^r[23]-.*-names$"), (reshape.SwapAxes, r"-names$"), (reshape.NewAxis, r"."), (reshape.Squeeze, r"."), (reshape.Repeat, r"."),
                       (axes.AxisUnion, r"-ff-"), (axes.AxisIntersection, r"-ff-"),
-                      align.GetAlignedAxes, (align.Align, r"-inner-")],
+                      align.GetAlignedAxes, (align.Align, r"-inner-")] +
+                     [(c, r"^x\|x-add|^xy\|yx") if c.__name__ == "OperationFrame" else c for c in filters.FRAME_CONTRACTS],
         "level": "proof",
         "min_obligations": 2000,
     },
@@ -110,7 +111,8 @@ PROPERTIES = {
     "C16": {
         "contracts": [metadata.AttrRouting, metadata.AttrsProperty, metadata.AxisMetadataSurvivesIndexing,
                       (bases.GetItem, r"^r[12]-(full|scalar|array|mask|slice)(\+(full|array))?-label$"),
-                      (align.TakeAxis, r"^r[12]-"), (align.SortAxis, r".")],
+                      (align.TakeAxis, r"^r[12]-"), (align.SortAxis, r".")] +
+                     [(c, r"^x\|x-add|^x\|y-add") if c.__name__ == "OperationMeta" else c for c in filters.META_CONTRACTS],
         "level": "other",
         "min_obligations": 300,
         "explanation": "attribute routing: complete case analysis over the classes of names the routing code can distinguish (public / underscore / class member / dimension name, present in attrs or not) on the real DimArray, Dataset and Axis classes, one concrete execution per class -- complete under the stated parametricity assumption (a name is only compared for equality with known strings and tested for a leading underscore). metadata propagation through indexing, take_axis, sort_axis, reindex_axis and axis slicing: proved clauses (metadata-copied, axis metadata kept) of the respective contracts.",
